@@ -227,7 +227,9 @@ pub struct FuncEntry {
     pub key: Uuid,
     #[serde(skip)]
     pub token: RawToken,
-    #[serde(skip)]
+    /// Written only when set, so that dumps of ordinary functions keep their
+    /// shape
+    #[serde(default, skip_serializing_if = "std::ops::Not::not")]
     pub is_interrupt_handler: bool,
 }
 
